@@ -16,7 +16,11 @@ import (
 
 // rebState: validators v0, v1 bonded (+ v2 unbonded when third), concrete native stake and
 // concrete current alliance stake; assets with symbolic weights and symbolic validator shares.
+// slashedNext: the next rebalance state has a really slashed validator 1 (exchange rate 0.95)
+var slashedNext bool
+
 type rebState struct {
+	Slashed bool
 	E       *env.Env
 	T0      time.Time
 	Native  []int64 // native tokens per validator
@@ -37,7 +41,8 @@ func buildRebZ(third int, curK int, second int, zeroV int) *rebState {
 	t0 := nd.TimeRange("t0", TLo, THi)
 	e := env.New(t0, 100)
 	_ = e.K.SetParams(e.Ctx, types.Params{RewardDelayTime: time.Hour, TakeRateClaimInterval: 5 * time.Minute, LastTakeRateClaimTime: t0})
-	s := &rebState{E: e, T0: t0, Native: []int64{1000000, 3000000, 500000}, NVals: 2}
+	s := &rebState{E: e, T0: t0, Native: []int64{1000000, 3000000, 500000}, NVals: 2, Slashed: slashedNext}
+	slashedNext = false
 	if third != 0 {
 		s.NVals = 3
 	}
@@ -56,13 +61,22 @@ func buildRebZ(third int, curK int, second int, zeroV int) *rebState {
 		}
 		s.Bonded = append(s.Bonded, bonded)
 		tok := math.NewInt(s.Native[v] + curs[v])
-		val := NewValidator(e, Vals[v], status, tok, math.LegacyNewDecFromInt(tok))
+		shares := math.LegacyNewDecFromInt(tok)
+		if s.Slashed && v == 1 {
+			// validator 1 was really slashed by 5%: 100 shares are worth 95 tokens (exchange rate != 1)
+			shares = math.LegacyNewDecFromInt(tok).MulInt64(100).QuoInt64(95)
+		}
+		val := NewValidator(e, Vals[v], status, tok, shares)
 		if third == 3 && v == 2 {
 			val.Jailed = true
 			e.Stk.AddValidator(val)
 		}
 		if curs[v] > 0 {
-			e.Stk.SetDelegationRaw(mod, Vals[v], stakingDelegation(mod, Vals[v], math.LegacyNewDec(curs[v])))
+			ds := math.LegacyNewDec(curs[v])
+			if s.Slashed && v == 1 {
+				ds = ds.MulInt64(100).QuoInt64(95)
+			}
+			e.Stk.SetDelegationRaw(mod, Vals[v], stakingDelegation(mod, Vals[v], ds))
 		}
 	}
 	nAssets := 1
